@@ -42,8 +42,9 @@ TrainOf(e, v) == ((v * 3 + e) % 5) + 1      \* training metric fed alongside (no
 UserOf(e, v) == e * 7 + v                   \* user-defined entry fed alongside
 \* a user-defined entry of type str, declared BEFORE the numeric ones: values that a comma-separated
 \* file has to quote (the separator, the quote character, blanks at either end, the empty string)
-UserStrs == << "plain", "a,b", "say \"hi\"", "x,\"y\",z", " lead", "trail ", ",", "\"", "", "7", "1,5" >>
-UserStrOf(e, v) == UserStrs[((e * 7 + v) % Len(UserStrs)) + 1]
+UserStrs == << "plain", "a,b", "say \"hi\"", "x,\"y\",z", " lead", "trail ", ",", "\"", "", "7", "1,5",
+               "two\nlines", "a\rb", "cr\r\nlf" >>      \* line breaks of every kind inside a (quoted) field
+UserStrOf(e, v) == UserStrs[((e * 5 + v) % Len(UserStrs)) + 1]   \* 5 is coprime to the table length
 
 Row0 == [epoch |-> 0, esres |-> p.B, espat |-> p.P, rres |-> p.RB, rpat |-> p.RP,
          lrk |-> 0, val |-> INF, trn |-> INF, user |-> 0]
